@@ -336,6 +336,11 @@ pub struct MPoll {
     pub eop_local: Option<usize>,
     /// script was exhausted (inner polled after completion)
     pub past_end: bool,
+    /// bracket of the inner (scripted) call
+    pub i0: u64,
+    pub i1: u64,
+    /// sink close returned Err: whether that completes the close is not claimed
+    pub close_err: bool,
 }
 
 #[derive(Debug, Default)]
